@@ -26,6 +26,7 @@ THEOREMS = [
     "Optyx.Props.C17.compileHessian_general_entries",
     "Optyx.Props.C17.compileHessian_symm",
     "Optyx.Props.C17.hessFast_eq_general",
+    "Optyx.Props.C17.hess_second_partial",
     "Optyx.Props.C17.hess_second_partial_partial",
 ]
 ASSUMPTIONS = [
@@ -81,6 +82,10 @@ def cases_for(rng, thorough):
             cases.append((vt, node, V, U))
         # the solver compiles the Hessian of the *negated* objective for maximisation (scipy_solver.py)
         cases.append((tag + "|negated", -node, list(own), U))
+    for tag, es, V, U2 in J.order_cover_cases(U, "hess"):
+        if tag.split("|")[1] == "orders120" and not (tag.startswith(("ps3", "uslog", "uscos")) or thorough):
+            continue
+        cases.append(("|".join(tag.split("|")[:2]), es[0], V, U2))
     n_rand = 4000 if thorough else 150
     for i in range(n_rand):
         U = gen.Universe(rng)
